@@ -8,6 +8,8 @@ import (
 	"net/http/httptest"
 	"net/url"
 	"strings"
+	"sync"
+	"sync/atomic"
 	"time"
 
 	"golang.org/x/oauth2"
@@ -113,16 +115,68 @@ func rpDevice(r rp.RelyingParty, scopes []string, approve func(deviceCode, userC
 	return rp.DeviceAccessToken(ctx, da.DeviceCode, 200*time.Millisecond, r)
 }
 
+// browserH holds the two handlers of a cookie-handling RP. As in an application they are built ONCE per relying
+// party and then serve every login (concurrently in part (a)): whatever a handler constructor keeps outside the
+// per-request closure is shared by all logins.
+type browserH struct {
+	auth, cb http.HandlerFunc
+}
+
+var (
+	browserHs  sync.Map // rp.RelyingParty -> *browserH
+	browserSeq atomic.Int64
+)
+
+func handlersFor(r rp.RelyingParty) *browserH {
+	if h, ok := browserHs.Load(r); ok {
+		return h.(*browserH)
+	}
+	h := &browserH{}
+	h.auth = rp.AuthURLHandler(func() string { return fmt.Sprintf("state-%d", browserSeq.Add(1)) }, r)
+	h.cb = rp.CodeExchangeHandler(func(w http.ResponseWriter, _ *http.Request, t *oidc.Tokens[*oidc.IDTokenClaims], state string, _ rp.RelyingParty) {
+		w.Header().Set("X-State", state)
+		w.Header().Set("X-Access", t.AccessToken)
+		w.Header().Set("X-Refresh", t.RefreshToken)
+		w.Header().Set("X-Id", t.IDToken)
+		if t.IDTokenClaims != nil {
+			w.Header().Set("X-Sub", t.IDTokenClaims.Subject)
+		}
+		w.WriteHeader(http.StatusOK)
+	}, r)
+	a, _ := browserHs.LoadOrStore(r, h)
+	return a.(*browserH)
+}
+
 // rpBrowser drives AuthURLHandler and CodeExchangeHandler of a cookie-handling RP like a browser: the
 // authorization request it produces is executed on s, the harness logs the user in, and the callback is fed back
-// with the cookies the RP set.
+// with the cookies the RP set. Every login is judged on its own: the state that comes back, the subject, and - with
+// PKCE - that the challenge in this login's authorization URL belongs to the verifier in this login's cookie.
 func rpBrowser(s srv, r rp.RelyingParty, user string) (*tokset, error) {
+	h := handlersFor(r)
 	rec := httptest.NewRecorder()
-	rp.AuthURLHandler(func() string { return "state-" + user }, r)(rec, httptest.NewRequest("GET", "https://c20.example/login", nil))
+	h.auth(rec, httptest.NewRequest("GET", "https://c20.example/login", nil))
 	loc := rec.Header().Get("Location")
 	u, err := url.Parse(loc)
 	if err != nil || rec.Code != http.StatusFound {
 		return nil, fmt.Errorf("AuthURLHandler: %d %q", rec.Code, loc)
+	}
+	state := u.Query().Get("state")
+	cookies := rec.Result().Cookies()
+	if r.IsPKCE() {
+		probe := httptest.NewRequest("GET", c20Redirect, nil)
+		for _, c := range cookies {
+			probe.AddCookie(c)
+		}
+		verifier, verr := r.CookieHandler().CheckCookie(probe, "pkce")
+		if verr != nil {
+			return nil, fmt.Errorf("harness: pkce cookie unreadable: %v", verr)
+		}
+		if got := u.Query().Get("code_challenge"); got != s256(verifier) {
+			return nil, fmt.Errorf("crosstalk: the authorization URL of this login carries code_challenge %q, the verifier in its own cookie gives %q", got, s256(verifier))
+		}
+		if n := len(u.Query()["code_challenge"]); n != 1 {
+			return nil, fmt.Errorf("crosstalk: the authorization URL of this login carries %d code_challenge parameters", n)
+		}
 	}
 	resp := s.get(u.Path, u.Query(), nil)
 	id := opdrv.LoginRequestID(resp)
@@ -135,26 +189,22 @@ func rpBrowser(s srv, r rp.RelyingParty, user string) (*tokset, error) {
 		return nil, fmt.Errorf("harness: no code in callback")
 	}
 	cb := httptest.NewRequest("GET", c20Redirect+"?"+ar.Params.Encode(), nil)
-	for _, c := range rec.Result().Cookies() {
+	for _, c := range cookies {
 		cb.AddCookie(c)
 	}
-	var got *tokset
-	var cbErr error
-	h := rp.CodeExchangeHandler(func(w http.ResponseWriter, _ *http.Request, t *oidc.Tokens[*oidc.IDTokenClaims], state string, _ rp.RelyingParty) {
-		got = &tokset{access: t.AccessToken, refresh: t.RefreshToken, id: t.IDToken, sub: user}
-		if state != "state-"+user {
-			cbErr = fmt.Errorf("crosstalk: callback state %q for %q", state, user)
-		}
-		if t.IDTokenClaims != nil && t.IDTokenClaims.Subject != user {
-			cbErr = fmt.Errorf("crosstalk: id_token sub %q for login of %q", t.IDTokenClaims.Subject, user)
-		}
-	}, r)
 	rec2 := httptest.NewRecorder()
-	h(rec2, cb)
-	if got == nil {
+	h.cb(rec2, cb)
+	if rec2.Code != http.StatusOK || rec2.Header().Get("X-Access") == "" {
 		return nil, fmt.Errorf("CodeExchangeHandler: %d %s", rec2.Code, strings.TrimSpace(rec2.Body.String()))
 	}
-	return got, cbErr
+	got := &tokset{access: rec2.Header().Get("X-Access"), refresh: rec2.Header().Get("X-Refresh"), id: rec2.Header().Get("X-Id"), sub: user}
+	if st := rec2.Header().Get("X-State"); st != state {
+		return got, fmt.Errorf("crosstalk: callback state %q for the login started with %q", st, state)
+	}
+	if sub := rec2.Header().Get("X-Sub"); sub != "" && sub != user {
+		return got, fmt.Errorf("crosstalk: id_token sub %q for login of %q", sub, user)
+	}
+	return got, nil
 }
 
 func rsIntrospect(r rs.ResourceServer, tok string) (*oidc.IntrospectionResponse, error) {
